@@ -19,9 +19,20 @@ func vWorldSkip() *vWorld {
 	qs := sch("QS", vUSub)
 	ss := sch("SS", vUSub)
 	js := sch("JS", vUFar)
+	// where the schema of the imported element holds its reference: it is the reference, or holds it under a
+	// keyword (properties, items, or an inline definitions map next to a local reference to it)
+	wrap := vChoose(4, "wrap")
 	withSchema := func(ref string) string {
 		if ref == "" {
 			return `{"type":"string"}`
+		}
+		switch wrap {
+		case 1:
+			return `{"description":"w","properties":{"p":` + vRefJSON(ref) + `}}`
+		case 2:
+			return `{"description":"w","items":` + vRefJSON(ref) + `}`
+		case 3:
+			return `{"description":"w","definitions":{"own":` + vRefJSON(ref) + `}}`
 		}
 		return vRefJSON(ref)
 	}
